@@ -10,7 +10,7 @@ Proof. vm_compute. reflexivity. Qed.
 
 Definition dop_must_override (op : dop) : bool :=
   match op with
-  | DSetItem _ _ | DUpdate _ _ | DIOr _ | DSetDefault _ _ | DCopy | DNew _ => true
+  | DSetItem _ _ | DUpdate _ _ | DIOr _ | DSetDefault _ _ | DCopy | DNew _ | DAssign _ => true
   | _ => false
   end.
 
@@ -102,6 +102,11 @@ Section DLemmas.
     - (* copy *) reflexivity.
     - (* == *) destruct o; reflexivity.
     - (* new *)
+      unfold dp_init. destruct (ds_samefield src) eqn:Sm; cbn [b_dstep ds_isdict ds_items]; [reflexivity|].
+      simpl in Hacc. destruct (ds_items s src) as [|p r] eqn:It; [reflexivity|].
+      rewrite (dvmap_all_ok _ Hacc). reflexivity.
+    - (* whole-value assignment *)
+      apply andb_prop in Hacc. destruct Hacc as [Hd Hacc]. rewrite Hd.
       unfold dp_init. destruct (ds_samefield src) eqn:Sm; cbn [b_dstep ds_isdict ds_items]; [reflexivity|].
       simpl in Hacc. destruct (ds_items s src) as [|p r] eqn:It; [reflexivity|].
       rewrite (dvmap_all_ok _ Hacc). reflexivity.
@@ -230,7 +235,7 @@ Section DPres.
     match op with
     | DSetItem k v => [(k, v)]
     | DUpdate src kw => ds_items s src ++ kw
-    | DIOr src => ds_items s src
+    | DIOr src | DAssign src => ds_items s src
     | DSetDefault k v => [(k, opt_or_none v)]
     | _ => []
     end.
@@ -250,6 +255,7 @@ Section DPres.
     - destruct (d_get k s); auto.
     - destruct (d_get k s); auto.
     - destruct (ds_isdict src); auto. destruct src; auto.
+    - destruct (ds_isdict src); auto. apply Forall_upd; auto.
   Qed.
 End DPres.
 
@@ -264,7 +270,7 @@ Section DInvariant.
   Definition src_wf (src : dsource) : Prop :=
     match src with DSCompat l | DSSameField l => Forall (dvalid VK VV) l | _ => True end.
   Definition dop_wf (op : dop) : Prop :=
-    match op with DUpdate src _ | DIOr src | DNew src => src_wf src | _ => True end.
+    match op with DUpdate src _ | DIOr src | DNew src | DAssign src => src_wf src | _ => True end.
 
   Lemma kwloop_valid kw : forall s,
     Forall (dvalid VK VV) s -> Forall (dvalid VK VV) (fst (kwloop VK VV s kw)).
@@ -319,6 +325,11 @@ Section DInvariant.
     - exact Hs.
     - destruct o; try exact Hs.
     - destruct (dp_init VK VV (ds_samefield src) (ds_items s src)); exact Hs.
+    - destruct (ds_isdict src); [|exact Hs]. destruct (ds_samefield src) eqn:Sm.
+      + unfold dp_init. cbn [fst]. destruct src; try discriminate; simpl in *; auto.
+      + unfold dp_init. destruct (ds_items s src) as [|p0 r0] eqn:It; cbn [fst]; [constructor|].
+        destruct (dvmap VK VV (p0 :: r0)) eqn:E; cbn [fst]; auto.
+        apply (Forall_upd PKp PVp); [constructor|]. eapply dvmap_valid; eauto.
   Qed.
 
   Lemma drun_valid_acc ops : forall s acc,
@@ -569,6 +580,12 @@ Section DPaths.
       + destruct (d_validate_err _ _ _ E) as [-> Hk]. rewrite Hk. intros H; inversion H; subst. eauto.
       + discriminate.
     - (* constructor *)
+      unfold dp_init. destruct (ds_samefield src); [discriminate|].
+      destruct (ds_items s src) as [|p r] eqn:It; [discriminate|].
+      destruct (dvmap VK VV (p :: r)) eqn:E; try discriminate.
+      intros H; inversion H; subst. apply dvmap_err; exact E.
+    - (* whole-value assignment *)
+      destruct (ds_isdict src); [|discriminate].
       unfold dp_init. destruct (ds_samefield src); [discriminate|].
       destruct (ds_items s src) as [|p r] eqn:It; [discriminate|].
       destruct (dvmap VK VV (p :: r)) eqn:E; try discriminate.
